@@ -113,6 +113,8 @@ def run(tier, seed, only):
     steps = [(f"nts_n{n}", (lambda n=n: nts(ctx, mf, n))) for n in ((0, 1, 2, 3, 4) if tier == "quick" else (0, 1, 2, 3, 4, 5, 6))]
     steps += [(f"prefix_n{n}", (lambda n=n: prefix(ctx, n))) for n in ((3, 5) if tier == "quick" else (3, 5, 7))]
     steps += [("ring_for_rf", lambda: ring_for_rf(ctx, mf))]
+    from . import smt_c04ri
+    steps += [("replication_info_new", lambda: smt_c04ri.run(ctx, mf, tier))]
     for name, f in steps:
         try:
             f()
